@@ -419,18 +419,13 @@ func (in *Interp) callSub(e *vh.CallExpr) (Value, error) {
 	if target == nil {
 		isField = true
 	}
-	if n > 0 || !isField {
-		// a field (or $0) is rebuilt only when a substitution was made; a variable or array
-		// element receives the (string) result in any case — its value is unchanged when n == 0
-		if n == 0 && cur.k != kStr {
-			// No substitution on a non-string value: goawk stores the string form back (the value
-			// is unchanged, its comparison type is not); whether the type may change is not
-			// settled by the property, so the case leaves the modelled fragment.
-			return null(), unsupported("sub/gsub without a match on a non-string variable")
-		}
+	if n > 0 {
+		// the target is assigned only when a substitution was made; otherwise it keeps its value
+		// exactly as it was (a number stays a number)
 		if err := lv.set(str(out)); err != nil {
 			return null(), err
 		}
 	}
+	_ = isField
 	return num(float64(n)), nil
 }
